@@ -208,6 +208,8 @@ def main(argv=None):
             print("INCONCLUSIVE:", res["inconclusive"]); return 2
         return 0
 
+    if not os.environ.get("FPVERIF_REPO") and not a.no_evidence:
+        shutil.rmtree(os.path.join(ROOT, "evidence", "replay", pid), ignore_errors=True)     # witnesses of earlier runs are stale
     cases = mod.gen_cases(tier, seed)
     only = os.environ.get("FPVERIF_ONLY")
     if only:
